@@ -6,6 +6,7 @@ exit 2  undecided (solver unknown, unsupported construct, contract out of date)
 exit 3  checker fault
 """
 import argparse
+import fnmatch
 import glob
 import hashlib
 import importlib
@@ -71,6 +72,10 @@ def _work(job):
     try:
         if kind == "contract":
             con = w.contracts[key]
+            if con.trusted:
+                return {"kind": kind, "key": key, "status": "ok", "reason": "", "paths": 0, "cases": [], "gen_s": 0.0,
+                        "wall_s": 0.0, "where": "", "sha": "", "externals": [], "callees": [], "covers": [],
+                        "obligations": [], "trusted": con.trusted}
             fr = run_contract(w, con, tier, only_case=only_case)
         else:
             lem = [l for l in w.lemmas if l.name == key][0]
@@ -78,7 +83,7 @@ def _work(job):
     except Exception as e:  # noqa
         return {"kind": kind, "key": key, "status": "fault", "reason": "%s: %s" % (type(e).__name__, e),
                 "trace": traceback.format_exc()[-1500:], "obligations": []}
-    z3_ms = 20000 if tier == "quick" else 120000
+    z3_ms = 10000 if tier == "quick" else 120000
     obs = []
     if kind == "contract" and fr.status == "undecided" and "has no invariant" in fr.reason:
         # a loop the contract does not know (the body changed): search for a counterexample by exact
@@ -111,7 +116,7 @@ def _work(job):
         else:
             text = to_smt2(w.axioms_for(o.pc + [goal]), o.pc, goal)
             size = len(text)
-            _, verdict, backend, secs, detail = solve_text((i, text, z3_ms, z3_ms, tier == "thorough"))
+            _, verdict, backend, secs, detail = solve_text((i, text, z3_ms, 2 * z3_ms, tier == "thorough"))
         excl = None
         if verdict == "sat" and o.extra.get("excluding") is not None:
             # known-finding witness class: is the obligation still refutable outside it?
@@ -296,9 +301,11 @@ def known_match(known, prop, ob):
     for k in known:
         if k.get("kind", "finding") != "finding":
             continue
-        if k["property"] != prop:
+        if k["property"] != prop and prop not in k.get("also_under", []):
+            # also_under: other properties whose checks include the same function (as a callee or
+            # through a shared contract) and therefore meet the same failing obligation
             continue
-        if k["obligation"] == ob["oid"]:
+        if k.get("obligation") == ob["oid"] or (k.get("obligation_glob") and fnmatch.fnmatchcase(ob["oid"], k["obligation_glob"])):
             if k.get("excluding") and ob.get("outside_known") != "unsat":
                 continue
             return k
@@ -328,7 +335,7 @@ def run(prop, tier, seed, jobs=None):
             if (j[0], j[1]) in done_keys:
                 continue
             done_keys.add((j[0], j[1]))
-            if j[0] == "contract" and len(w.contracts[j[1]].cases) > 1:
+            if j[0] == "contract" and len(w.contracts[j[1]].cases) > 1 and not w.contracts[j[1]].trusted:
                 # one job per type case: the cases of a function are independent
                 batch.extend((j[0], j[1], j[2], cn) for cn in w.contracts[j[1]].cases)
             else:
@@ -385,13 +392,18 @@ def report(prop, tier, seed, results, w, gen_wall, t0):
     functions = []
     externals = set()
     known_lines = []
+    known_hits = {}
     unreach = []
+    trusted_contracts = []
     for key, r in sorted(results.items(), key=lambda kv: str(kv[0])):
         if r["status"] == "fault":
             faults.append("%s: %s" % (r["key"], r["reason"]))
             continue
         if r["status"] != "ok":
             undecided.append("%s: %s" % (r["key"], r["reason"]))
+        if r.get("trusted"):
+            trusted_contracts.append("%s:%s -- %s" % (r["key"][0], r["key"][1], r["trusted"]))
+            continue
         if r["status"] == "ok" and not r["obligations"]:
             faults.append("%s: zero obligations generated (vacuous)" % (r["key"],))
         functions.append({"function": "%s:%s" % tuple(r["key"]) if r["kind"] == "contract" else "%s:%s" % (r["kind"], r["key"]),
@@ -412,7 +424,8 @@ def report(prop, tier, seed, results, w, gen_wall, t0):
                 k = known_match(known, prop, ob)
                 if k is not None:
                     n_known += 1
-                    line = "KNOWN-FINDING: property=%s %s [%s]" % (prop, k["what"], ob["oid"])
+                    line = "KNOWN-FINDING: property=%s %s" % (prop, k["what"])
+                    known_hits[line] = known_hits.get(line, 0) + 1
                     if line not in known_lines:
                         known_lines.append(line)
                 else:
@@ -420,7 +433,7 @@ def report(prop, tier, seed, results, w, gen_wall, t0):
             else:
                 undecided.append("%s: solver unknown %s" % (ob["oid"], ob.get("detail", "")))
     for line in known_lines:
-        print(line)
+        print("%s [%d failing obligation(s) match this entry]" % (line, known_hits.get(line, 0)))
     vio_lines = []
     seen_v = set()
     for r, ob in violations:
@@ -452,6 +465,7 @@ def report(prop, tier, seed, results, w, gen_wall, t0):
             for a in con.assumes:
                 assumptions.append("%s: %s" % (con.qualname, a))
             assumptions.append("%s: proved for the type cases %s only" % (con.qualname, ", ".join(r.get("cases", []))))
+    assumptions += ["ASSUMED CONTRACT (callee contract used but its body not verified): " + t for t in sorted(trusted_contracts)]
     assumptions += ["extraction drops: " + d for d in extract.DROPPED]
     ev = {
         "property_id": prop, "tier": tier, "seed": seed, "level": level,
